@@ -1,3 +1,4 @@
 -- Root of the `SteelVerif` library: every model, lemma and property file.
+import SteelVerif.C01.Props
 import SteelVerif.C05.Props
 import SteelVerif.C06.Props
